@@ -65,6 +65,9 @@ def floors(tier):
     for op in ("is_valid", "exhaust", "validate", "take_close", "take_drop", "throw", "resolve", "resolving", "in_scope",
                "toggle_handler", "toggle_callout"):
         f["op:" + op] = 200
+    if tier == "thorough":
+        f["failpoints_injected"] = 5000
+        f["failpoint_sites_distinct"] = 100      # summed over shards; every shard sees the same ~60 sites
     return f
 
 
@@ -91,13 +94,15 @@ class World:
                 "instances": self.instances, "refs": self.refs}
 
 
-def rich_world(rng, d):
+def rich_world(rng, d, unresolvable=True):
     idk = impl.IDKW[d]
     g = SchemaGen(rng, d, maxdepth=1)
     leaf = g.keyword_schema(rng.choice(["type", "minimum", "maxLength", "enum", "pattern"]))
     leaf2 = g.keyword_schema(rng.choice(["type", "maxItems", "minLength", "enum"]))
     H = R.HANDLER_DIR
-    hdocs = {H + "h0.json": {"definitions": {"x": leaf2}, "properties": {"v": {"$ref": "#/definitions/x"}}},
+    # (no fragment-only references inside handler documents: under the custom scheme they hit the recorded
+    #  finding C02/non-hierarchical-base-uri and every validation would end in RefResolutionError)
+    hdocs = {H + "h0.json": {"definitions": {"x": leaf2}, "properties": {"v": leaf2, "u": {"$ref": R.STORE_DIR + "s1.json#/definitions/q"}}},
              H + "h1.json": leaf}
     store = {R.STORE_DIR + "s0.json": {idk: R.STORE_DIR + "s0.json", "items": {"$ref": "s1.json#/definitions/q"}},
              R.STORE_DIR + "s1.json": {"definitions": {"q": leaf2}}}
@@ -117,6 +122,10 @@ def rich_world(rng, d):
         "f": {"format": "vf-format"},
         "t": {"type": "string"},
         "l": {"$ref": "#/definitions/leaf"},
+        # the draft's own id keyword next to $ref (spellings that resolve whether or not the sibling id is honoured)
+        "k": {idk: "http://other.example/x/", "$ref": R.ROOT_URL + "#/definitions/leaf"},
+        "k2": {"$ref": "#/definitions/deep", idk: R.ROOT_URL},
+        "k3": {"items": {idk: "http://other.example/y/", "$ref": R.ROOT_URL + "#/definitions/tree"}},
     }
     if d >= 4:
         props["q"] = {"not": {"$ref": "#/definitions/deep"}}
@@ -133,7 +142,7 @@ def rich_world(rng, d):
     names = list(props)
     rng.shuffle(names)
     keep = names[:rng.randrange(4, len(names) + 1)]
-    if rng.random() < 0.6 and "u" in keep:
+    if (rng.random() < 0.6 or not unresolvable) and "u" in keep:
         keep.remove("u")
     S = {idk: R.ROOT_URL, "definitions": {"leaf": leaf, "deep": deep, "tree": tree},
          "properties": {n: props[n] for n in keep}}
@@ -165,6 +174,10 @@ def rich_world(rng, d):
                 out[n] = deep_inst() if rng.random() < 0.5 else ig.any(1)
             elif n == "rec":
                 out[n] = tree_inst(rng.randrange(0, 3))
+            elif n == "k2":
+                out[n] = deep_inst()
+            elif n == "k3":
+                out[n] = [tree_inst(1), tree_inst(0)]
             elif n == "r":
                 out[n] = {"v": ig2.any(1)}
             elif n == "s":
@@ -449,13 +462,76 @@ def _short(x):
     return s if len(s) < 300 else s[:300] + "..."
 
 
+def failpoint_sweep(ctx, rng, world, LF):
+    """Thorough tier: a keyword function (built-in or user-supplied) may raise at any point.  Inject a
+    fault at the k-th statement start inside keyword-function bodies during an iteration on a REUSED
+    validator, then check the quiescent state and that the next, undisturbed validation equals a fresh one."""
+    from vf.obs.monitor import FaultInjected
+    cls = build_class(world)
+    V = build_validator(world, cls, healthy=True)
+    scope0 = V.resolver.resolution_scope
+    snap0 = snapshot(world)
+    for idx, inst in enumerate(world.instances):
+        LF.arm(None)
+        LF.count = 0
+        base = outcome(lambda: [fp(e) for e in V.iter_errors(inst)])
+        n = LF.disarm()
+        if n == 0 or base[0] != "ok":
+            continue
+        ks = list(range(1, n + 1))
+        if len(ks) > 40:
+            ks = rng.sample(ks, 40)
+        for k in ks:
+            LF.arm(k)
+            try:
+                list(V.iter_errors(inst))
+                fired = False
+            except FaultInjected:
+                fired = True
+            except (X.RefResolutionError, Boom):
+                fired = True
+            LF.disarm()
+            gc.collect()
+            ctx.count("failpoints_injected")
+            site = LF.fired
+            if site:
+                ctx.counters["failpoint_site:%s:%s:%d" % site] += 1
+            case = {"world": world.describe(), "failpoint": {"instance_index": idx, "k": k, "site": list(site) if site else None}}
+            ctx.case(["failpoint", world.schema, inst, k], nontrivial=fired)
+            if len(V.resolver._scopes_stack) != 1 or V.resolver.resolution_scope != scope0:
+                ctx.violation("scope-not-restored", case, "after a fault at %r the scope stack is %r" % (site, V.resolver._scopes_stack[-4:]))
+                return
+            if snapshot(world) != snap0:
+                ctx.violation("mutation", case, "instance/schema/store changed after a fault at %r" % (site,))
+                return
+            again = outcome(lambda: [fp(e) for e in V.iter_errors(inst)])
+            fresh = outcome(lambda: [fp(e) for e in build_validator(world, cls, healthy=True).iter_errors(inst)])
+            if again != fresh:
+                ctx.violation("history-dependent-result", case, "after a fault at %r the reused validator gives %s, a fresh one %s" % (
+                    site, _short(again), _short(fresh)))
+                return
+
+
 def run(ctx):
     impl.quiet()
+    if ctx.tier == "thorough":
+        from vf.obs.monitor import LineFaults
+        LF = LineFaults()
+        ctx.notes["failpoint_excluded_lines"] = LF.excluded
+        LF.start()
+        try:
+            rr = random.Random(7070 + ctx.shard)
+            for i in range(40):
+                world = rich_world(rr, impl.DRAFTS[i % 4], unresolvable=False)
+                failpoint_sweep(ctx, rr, world, LF)
+        finally:
+            LF.stop()
+        ctx.count("failpoint_sites_distinct", sum(1 for k in ctx.counters if k.startswith("failpoint_site:")))
     slog = ScopeLog()
     slog.install()
     try:
         rng = ctx.rng
-        for i in range(ctx.scale(260, 4000)):
+        for i in range(ctx.scale(200, 4000)):
             d = impl.DRAFTS[i % 4]
             world = rich_world(rng, d) if rng.random() < 0.7 else arranged_world(rng, d)
             ops = gen_history(rng, world)
